@@ -1,6 +1,7 @@
 package main
 
 import (
+	"os"
 	"time"
 
 	"github.com/bilibili/gengine/engine"
@@ -70,14 +71,9 @@ func runPoolConfigs(c *hx.Ctx, prop string, cfgs []poolCfg, bounds []int) {
 			c.Res.Capped = append(c.Res.Capped, "time budget before all configurations")
 			break
 		}
-		big := len(cfg.Clients) >= 2 && bounds[i] >= 2
-		ec := hx.ExploreCfg{Bound: envBound(bounds[i]), Prune: true, Deadline: c.Deadline}
-		if big {
-			ec.Shard, ec.NShards = c.Shard, c.NShards
-		} else if !c.Mine(i) {
-			continue
-		}
-		hx.Explore(prop, poolScenario(cfg), ec, c.Res)
+		ec := hx.ExploreCfg{Bound: envBound(delayBound(c, bounds[i])), Delay: os.Getenv("HX_PREEMPT") == "", Prune: true, Deadline: c.Deadline}
+		cfg := cfg
+		exploreShared(c, prop, i, func() *hx.Scenario { return poolScenario(cfg) }, ec)
 	}
 }
 
@@ -88,7 +84,7 @@ func init() {
 		BudgetQuick: 170 * time.Second,
 		BudgetThor:  30 * time.Minute,
 		Kind:        "schedules",
-		Rule: "pool (1,2) [thorough also (2,3),(1,3)]: M+1 clients x 1 request and M clients x 2 requests through Execute / ExecuteRulesWithSpecifiedEM with every fault subset of size <=1 (2) (injected panic, rule error), every schedule with <=2 (3) preemptions incl. the busy-wait loop (fair yield) and the asynchronous put goroutines; " +
+		Rule: "pool (1,2) [thorough also (2,3),(1,3)]: M+1 clients x 1 request and M clients x 2 requests through Execute / ExecuteRulesWithSpecifiedEM with every fault subset of size <=1 (2) (injected panic, rule error), every schedule with <=2 (thorough 3) deviations from the default scheduler (delay bounding) incl. the busy-wait loop (fair yield) and the asynchronous put goroutines; " +
 			"plus every one of the 24 execute methods x applicable execution models with ok/panicking/failing requests; after quiescence a conservation phase holds max requests inside a rule simultaneously (a lost instance = hang verdict). Oracle: in-flight rule bodies <= max, every request returns, errors only for a request's own faults, every rule body runs once",
 		Assume:  []string{"injected functions terminate", "sequentially consistent memory (races are C19's subject)", "a fresh pool is constructed per execution"},
 		Run:     func(c *hx.Ctx) { cfgs, b := c17Configs(c.Thorough()); runPoolConfigs(c, "C17", cfgs, b) },
